@@ -11,7 +11,10 @@ Inductive iout :=
 | IPanic
 | IHang.
 
-Inductive case := Case (pool : list name) (ops : list op) (obs : list (iout * list N * list name)).
+(** [wiring]: for a successful Get, what the dependencies of the returned instance had resolved to
+    when it was built (the instance's own record of its fields); [[]] otherwise. *)
+Inductive case := Case (pool : list name) (ops : list op)
+                       (obs : list (iout * list N * list name * list (option token))).
 
 Definition kind_eqb (a b : kind) : bool :=
   match a, b with KInst, KInst | KFac, KFac | KDef, KDef | KDFac, KDFac => true | _, _ => false end.
@@ -42,13 +45,15 @@ Definition out_eqb (nfields : nat) (m : out) (i : iout) : bool :=
 
 Definition nfields (o : op) : nat := match o with OInject fs => length fs | _ => O end.
 
-Fixpoint obs_eqb (ops : list op) (m : list (out * list N * list name)) (i : list (iout * list N * list name)) : bool :=
-  match ops, m, i with
-  | [], [], [] => true
-  | o :: ops', (mo, mc, mk) :: m', (io, ic, ik) :: i' =>
-    out_eqb (nfields o) mo io && list_eqb N.eqb mc ic && list_eqb N.eqb mk ik && obs_eqb ops' m' i'
-  | _, _, _ => false
+Fixpoint obs_eqb (ops : list op) (m : list (out * list N * list name)) (w : list (list (option token)))
+         (i : list (iout * list N * list name * list (option token))) : bool :=
+  match ops, m, w, i with
+  | [], [], [], [] => true
+  | o :: ops', (mo, mc, mk) :: m', mw :: w', (io, ic, ik, iw) :: i' =>
+    out_eqb (nfields o) mo io && list_eqb N.eqb mc ic && list_eqb N.eqb mk ik
+    && list_eqb otok_eqb mw iw && obs_eqb ops' m' w' i'
+  | _, _, _, _ => false
   end.
 
 Definition check (c : case) : bool :=
-  match c with Case pool ops obs => obs_eqb ops (run_obs pool ops init) obs end.
+  match c with Case pool ops obs => obs_eqb ops (run_obs pool ops init) (run_wire ops init) obs end.
